@@ -47,6 +47,23 @@ func c06Base(seed int64, kind string) *c06Stream {
 			&pidUnits{0x100, []SUnit{lookalikePES(0x100, 51, seed), lookalikePES(0x100, 52, seed), PESUnit(0x100, 0xe0, pesPayload(53, 100, seed), 53, false), lookalikePES(0x100, 54, seed)}, 12},
 			&pidUnits{0x101, []SUnit{PESUnit(0x101, 0xc0, pesPayload(55, 300, seed), 55, true), PESUnit(0x101, 0xc0, pesPayload(56, 30, seed), 56, true)}, 0},
 		)
+	} else if kind == "repeated-tables" {
+		// the tables of a programme repeated as a multiplexer does: PAT three times, the PMT six times (twice per PAT
+		// period), a video PID in between
+		var pats, pmts []SUnit
+		for v := 0; v < 3; v++ {
+			pat := modelPAT(1, 0x1000)
+			pat.TransportStreamID = uint16(0x100 + v)
+			pats = append(pats, PSIUnit(0, 0, [][]byte{SecPAT(pat, ref.SecHdr{CNI: true, Version: uint8(v)})}, nil))
+		}
+		for v := 0; v < 6; v++ {
+			pmts = append(pmts, PSIUnit(0x1000, 0, [][]byte{SecPMT(modelPMT(1, 0x100, 1+v%3), ref.SecHdr{CNI: true, Version: uint8(v)})}, nil))
+		}
+		pids = []*pidUnits{
+			{0, pats, 4},
+			{0x1000, pmts, 9},
+			{0x100, []SUnit{PESUnit(0x100, 0xe0, pesPayload(61, 184*2-14-5, seed), 61, false), PESUnit(0x100, 0xe0, pesPayload(62, 100, seed), 62, false), PESUnit(0x100, 0xe0, pesPayload(63, 184*2-14-5, seed), 63, false)}, 1},
+		}
 	} else if !long {
 		patA, patB := modelPAT(1, 0x1000), modelPAT(1, 0x1000)
 		patB.TransportStreamID = 0x4321
@@ -89,6 +106,10 @@ func c06Base(seed int64, kind string) *c06Stream {
 		unitOf = append(unitOf, uo)
 	}
 	order := roundRobin(lists)
+	if kind == "repeated-tables" {
+		// PAT PMT PMT video video | PAT PMT PMT video | PAT PMT PMT video video
+		order = []int{0, 1, 1, 2, 2, 0, 1, 1, 2, 0, 1, 1, 2, 2}
+	}
 	st := &c06Stream{Name: kind, PSI: psi, Units: map[uint16][][]byte{}}
 	for _, p := range pids {
 		for _, u := range p.units {
@@ -308,7 +329,54 @@ func checkFaulted(st *c06Stream, clean map[uint16][]string, fs []fault) (sig, ms
 		c, g := clean[pid], got[pid]
 		x := facts[pid]
 		if pid == 0x1000 && facts[0] != nil && facts[0].dels > 0 {
-			continue // a PMT PID depends on the PAT having been delivered (the dependence C07 states)
+			// a PMT PID depends on the PAT having been delivered (the dependence C07 states): the PMT units in front of
+			// the first PAT that lost nothing may be missing. Those that start behind it are units of a PID that lost
+			// nothing and borders no gap: they are all delivered, and nothing else is
+			if x != nil || len(c) != len(st.Units[pid]) {
+				continue
+			}
+			patEnd := -1 // index of the last packet of the first PAT unit without a lost packet
+			lostPAT := map[int]bool{}
+			for j, p := range st.Pkts {
+				if p.PID == 0 && del[j] {
+					lostPAT[st.UnitOf[j]] = true
+				}
+			}
+			for j, p := range st.Pkts {
+				if p.PID != 0 || lostPAT[st.UnitOf[j]] || lostPAT[st.UnitOf[j]+1] {
+					continue
+				}
+				last := true
+				for k := j + 1; k < len(st.Pkts); k++ {
+					if st.Pkts[k].PID == 0 && st.UnitOf[k] == st.UnitOf[j] {
+						last = false
+						break
+					}
+				}
+				if last {
+					patEnd = j
+					break
+				}
+			}
+			if patEnd < 0 {
+				continue
+			}
+			firstPkt := map[int]int{}
+			for j := len(st.Pkts) - 1; j >= 0; j-- {
+				if st.Pkts[j].PID == pid {
+					firstPkt[st.UnitOf[j]] = j
+				}
+			}
+			var must []string
+			for u := range st.Units[pid] {
+				if firstPkt[u] > patEnd {
+					must = append(must, c[u])
+				}
+			}
+			if len(g) < len(must) || !equalStrs(g[len(g)-len(must):], must) {
+				return "pmt-behind-surviving-pat-lost", fmt.Sprintf("PAT packets were lost, PID %#x lost nothing: the %d PMT units that start behind the first intact PAT must all be delivered (last %d of %d delivered data differ from them)", pid, len(must), len(must), len(g))
+			}
+			continue
 		}
 		if x == nil {
 			if !equalStrs(c, g) {
@@ -386,7 +454,7 @@ func checkC06(c *mc.Ctx) {
 	c.Ev.Rule = "(a) every single duplication, every single deletion, every burst and every pair of faults on well-formed base streams, outputs of the real Demuxer related as the statement demands; (b) all packet sequences up to the length bound over the alphabet {continuity delta dup/+1/+2} x {PUSI} x {payload, AF-only, TEI, discontinuity_indicator} for PID A plus packets of PID B, safety oracle on the delivered units; distinct_nontrivial = distinct fault sets / sequences"
 	c.Ev.Assumptions = append(c.Ev.Assumptions, "a duplicate is a byte-identical copy inserted immediately after the original (ISO 13818-1 2.4.3.3)",
 		"loss relation evaluated only for PIDs where fewer than 16 packets in a row are lost and a later payload packet of the PID survives")
-	for _, kind := range []string{"mixed", "long", "lookalike"} {
+	for _, kind := range []string{"mixed", "long", "lookalike", "repeated-tables"} {
 		long := kind == "long"
 		st := c06Base(c.Seed, kind)
 		cleanOut := DemuxBytes(EncodePkts(st.Pkts))
